@@ -120,6 +120,11 @@ const callFormsFile = `{namespace pr}
 {/if}
 {/template}
 /** @param? m */
+{template .funcforms}
+{randomInt(1)}{randomInt(1) + length(keys(augmentMap(['a': 1], ['b': 2])))}|{round(2.567, 2)}|{round(2.5)}|{floor(2.5)}|{ceiling(2.5)}|{min(1, 2.5)}|{max(1, 2)}|{strContains('abc', 'b')}|{length(range(3))}|{hasData()}|{isNonnull($m)}
+{foreach $x in range(1, 7, 2)}{index($x)}{isFirst($x)}{isLast($x)}{/foreach}
+{/template}
+/** @param? m */
 {template .dirforms}
 {let $v: $m?.s ?: 'a <b> & c' /}
 {$v|id|escapeHtml}{$v|noAutoescape|truncate:3}{$v|id|insertWordBreaks:3}{$v|insertWordBreaks:2}{$v|changeNewlineToBr}{$v|changeNewlineToBr|id}
@@ -253,7 +258,7 @@ func c08History(r *fw.Rand, tier, config string, nops int) (files []srcFile, pro
 	if config == "custom" {
 		names = append(names, "cust.t")
 	}
-	names = append(names, "pr.callforms", "pr.callforms", "pr.dirforms")
+	names = append(names, "pr.callforms", "pr.callforms", "pr.dirforms", "pr.funcforms")
 	for k := 0; k < nops; k++ {
 		if r.P(1, 4) {
 			ops = append(ops, c08Op{kind: "js", file: r.Intn(64), es6: r.Bool(), msgs: r.P(1, 3), viaGen: r.P(1, 4)})
